@@ -259,6 +259,9 @@ func TestVerif_C03_h1enc(t *testing.T) {
 			for zc < len(zAt) && zAt[zc] <= k {
 				zc++
 			}
+			if ze.enc == "zstd" && zc <= 3 && k < whole {
+				reached["zstd-frame-start-cut"]++
+			}
 			if first != "fail" {
 				if k < whole && ze.enc != "gzip" && zc == len(z) && first == "ok body="+verifh.Hex(plain) {
 					// deflate / br / zstd stop at their own end-of-stream mark: the ENCODED stream arrived whole, the
@@ -314,7 +317,7 @@ func TestVerif_C03_h1enc(t *testing.T) {
 	if failures >= 12 {
 		return
 	}
-	for _, need := range []string{"ok", "fail", "enc:gzip", "enc:deflate", "enc:br", "enc:zstd", "overlong"} {
+	for _, need := range []string{"ok", "fail", "enc:gzip", "enc:deflate", "enc:br", "enc:zstd", "overlong", "zstd-frame-start-cut"} {
 		if reached[need] == 0 {
 			t.Errorf("C03/h1enc never reached %q", need)
 		}
